@@ -85,13 +85,14 @@ uts.domainname = (none)
 """
 
 
-def diskdump(d, name="dd", methods=("raw", "zlib", "zlib", "raw", "zlib", "raw"), extra="", vmcoreinfo=None):
+def diskdump(d, name="dd", methods=("raw", "zlib", "zlib", "raw", "zlib", "raw"), extra="", vmcoreinfo=None,
+             arch="x86_64"):
     data = os.path.join(d, name + ".data")
     with open(data, "w") as f:
         for (addr, body), m in zip(PAGES, methods):
             f.write("@%#x %s\n%s\n" % (addr, m, body))
-    params = ("version = 6\narch_name = x86_64\nblock_size = 4096\nphys_base = 0\nmax_mapnr = 0x3000\n"
-              "sub_hdr_size = 1\n" + UTS + "nr_cpus = 1\n" + extra + "DATA = %s\n" % data)
+    params = ("version = 6\narch_name = %s\nblock_size = 4096\nphys_base = 0\nmax_mapnr = 0x3000\n"
+              "sub_hdr_size = 1\n" % arch + UTS.replace("x86_64", {"ia32": "i686"}.get(arch, arch)) + "nr_cpus = 1\n" + extra + "DATA = %s\n" % data)
     if vmcoreinfo:
         vf = os.path.join(d, name + ".vmcoreinfo")
         with open(vf, "w") as f:
@@ -198,3 +199,70 @@ def bad_pages_diskdump(d, name="ddbad"):
     with open(path, "wb") as f:
         f.write(buf)
     return path, bad, good
+
+
+def elf_bad_notes(d):
+    """ELF cores whose PT_NOTE segment reads fine but is rejected while it is processed
+    (VMCOREINFO with an invalid PAGESIZE, a key starting with '.', a too short Xen note), the
+    offending note sitting behind a long ERASEINFO note so that the segment spans four file
+    pages (with file.mmap_policy = never the chunk is then a heap copy).  name -> path"""
+    from . import c03_formats as cf
+    out = {}
+    pad = "x" * 9000 + "\n"
+    variants = {
+        "pagesize": cf.note_words("VMCOREINFO", None, 0, raw_desc="OSRELEASE=1.2.3\nPAGESIZE=3000\n"),
+        "dotkey": cf.note_words("VMCOREINFO", None, 0, raw_desc="OSRELEASE=1.2.3\n.hidden=1\nPAGESIZE=4096\n"),
+        "xenshort": cf.note_words("Xen", ["0000000000000001"], 0x2000001),
+        "good": cf.note_words("VMCOREINFO", None, 0, raw_desc="OSRELEASE=1.2.3\nPAGESIZE=4096\n"),
+    }
+    for tag, bad in variants.items():
+        name = "elfnote-" + tag
+        data = "@phdr type=NOTE offset=0x1000\n"
+        data += cf.note_words("ERASEINFO", None, 0, raw_desc=pad)
+        data += bad
+        data += "@phdr type=LOAD offset=0x5000 vaddr=0xffffffff80000000 paddr=0x0 memsz=0x2000\n55*0x1000\naa*0x1000\n"
+        with open(os.path.join(d, name + ".data"), "w") as f:
+            f.write(data)
+        cfg = "ei_class = 2\nei_data = 1\ne_machine = 62\ne_phoff = 64\ne_phentsize = 56\nDATA = %s\n" % \
+            os.path.join(d, name + ".data")
+        try:
+            out[name] = _run("mkelf", os.path.join(d, name + ".dump"), cfg)
+        except RuntimeError:
+            pass
+    return out
+
+
+def corrupted_opens(d, rng, per_seed, flat_all=True):
+    """Corrupted variants of the parse agent's seed dumps (lib/kdv/c03_formats.py: one field set
+    to an enumerated bad value, or the file cut at a structure boundary).  For the flattened
+    seeds every corruption of a segment header is produced (a good header followed by a bad one),
+    for the others a sample of [per_seed].  Yields (label, path)."""
+    from . import c03_formats as cf
+    sd = os.path.join(d, "seeds")
+    seeds = [s for s in cf.build_seeds(sd) if len(s.files) == 1]
+    od = os.path.join(d, "corrupt")
+    os.makedirs(od, exist_ok=True)
+    out = []
+    k = 0
+    for s in seeds:
+        data = s.data[0]
+        muts = []
+        for f in s.fields:
+            for v in cf.corrupt_values(f, data, "none" if s.kind == "flat" else "sparse"):
+                muts.append(("%s=%#x" % (f.name, v), data[:f.off] + f.enc(v) + data[f.off + f.size:]))
+        for b in sorted(s.bounds[0]):
+            for cut in (b, b + 3, b - 1):
+                if 0 < cut < len(data):
+                    muts.append(("cut@%d" % cut, data[:cut]))
+        flat = [m for m in muts if m[0].startswith("rec") or m[0].startswith("cut")] if s.kind == "flat" else []
+        rest = [m for m in muts if m not in flat]
+        pick = (flat if flat_all else rng.sample(flat, min(len(flat), per_seed))) + \
+            rng.sample(rest, min(len(rest), per_seed))
+        for label, blob in pick:
+            import re as _re
+            p = os.path.join(od, "c%04d-%s-%s.dump" % (k, s.name, _re.sub(r"[^A-Za-z0-9_.=@-]", "_", label)[:60]))
+            k += 1
+            with open(p, "wb") as f:
+                f.write(blob)
+            out.append(("%s:%s" % (s.name, label), p))
+    return out
